@@ -7,6 +7,7 @@
 #include <algorithm>
 #include <cinttypes>
 #include <csignal>
+#include <dirent.h>
 #include <cstdint>
 #include <cstdio>
 #include <cstdlib>
@@ -23,12 +24,13 @@
 #include <unistd.h>
 #include <vector>
 
-// ThreadSanitizer calls this (weak hook of the runtime) for every report: the run goes on to its end and is then reported
-// as a violation of class "tsan-report" with its knobs and decisions, instead of killing the worker process.
-static volatile int g_vf_tsan_reports = 0;
-extern "C" __attribute__((used, visibility("default"))) void __tsan_on_report(void*)
+// dynamic annotations of the ThreadSanitizer runtime (absent in the other builds)
+extern "C"
 {
-    g_vf_tsan_reports = g_vf_tsan_reports + 1;
+    void AnnotateIgnoreReadsBegin(const char* file, int line) __attribute__((weak));
+    void AnnotateIgnoreReadsEnd(const char* file, int line) __attribute__((weak));
+    void AnnotateIgnoreWritesBegin(const char* file, int line) __attribute__((weak));
+    void AnnotateIgnoreWritesEnd(const char* file, int line) __attribute__((weak));
 }
 
 namespace vf
@@ -80,6 +82,33 @@ struct rng_t
     {
         return v[static_cast<size_t>(next() % v.size())];
     }
+};
+
+// Harness bookkeeping shared by simulated threads is written without locks (exactly one simulated thread runs at a time).
+// A real lock would add happens-before edges between library tasks and hide races of the code under test, so these regions
+// are made invisible to ThreadSanitizer instead.
+struct tsan_ignore_t
+{
+    tsan_ignore_t()
+    {
+        if (AnnotateIgnoreReadsBegin && AnnotateIgnoreWritesBegin)
+        {
+            AnnotateIgnoreReadsBegin(__FILE__, __LINE__);
+            AnnotateIgnoreWritesBegin(__FILE__, __LINE__);
+        }
+    }
+
+    ~tsan_ignore_t()
+    {
+        if (AnnotateIgnoreReadsEnd && AnnotateIgnoreWritesEnd)
+        {
+            AnnotateIgnoreWritesEnd(__FILE__, __LINE__);
+            AnnotateIgnoreReadsEnd(__FILE__, __LINE__);
+        }
+    }
+
+    tsan_ignore_t(const tsan_ignore_t&)            = delete;
+    tsan_ignore_t& operator=(const tsan_ignore_t&) = delete;
 };
 
 inline uint64_t mix(uint64_t a, uint64_t b)
@@ -448,6 +477,28 @@ inline void flush_summary(bool final_line)
     w.samples.clear();
 }
 
+// ml::tune always writes one log file per (trial, fold) under TMPDIR: keep the per-worker scratch directory empty
+inline void clean_tmpdir()
+{
+    const char* tmp = getenv("TMPDIR");
+    if (tmp == nullptr || strstr(tmp, "/build/tmp/") == nullptr)
+    {
+        return; // only ever touch the scratch directory the driver created for this worker
+    }
+    if (DIR* d = opendir(tmp))
+    {
+        while (const dirent* e = readdir(d))
+        {
+            const size_t n = strlen(e->d_name);
+            if (n > 4 && strcmp(e->d_name + n - 4, ".log") == 0)
+            {
+                unlink((std::string(tmp) + "/" + e->d_name).c_str());
+            }
+        }
+        closedir(d);
+    }
+}
+
 inline bool parse_kv(const char* s, std::string& k, int64_t& v)
 {
     const char* eq = strchr(s, '=');
@@ -653,7 +704,7 @@ inline int worker_main(int argc, char** argv, const char* property, const run_fn
             w.progress[0] = seed;
             w.progress[1] = 1; // in a run
         }
-        const int tsan_before = g_vf_tsan_reports;
+        const int tsan_before = simrt_tsan_reports();
         try
         {
             run(c);
@@ -670,11 +721,11 @@ inline int worker_main(int argc, char** argv, const char* property, const run_fn
         {
             c.end_sim();
         }
-        if (g_vf_tsan_reports != tsan_before)
+        if (simrt_tsan_reports() != tsan_before)
         {
             // a data race makes everything after it unreliable: it takes precedence over oracle verdicts
             c.vclass  = "tsan-report";
-            c.vdetail = std::to_string(g_vf_tsan_reports - tsan_before) + " ThreadSanitizer report(s) in this run (text on stderr)";
+            c.vdetail = std::to_string(simrt_tsan_reports() - tsan_before) + " ThreadSanitizer report(s) in this run (text on stderr)";
         }
         if (w.progress)
         {
@@ -753,6 +804,7 @@ inline int worker_main(int argc, char** argv, const char* property, const run_fn
                    c.vdetail.c_str(), c.sample.c_str());
         }
         w.current = nullptr;
+        clean_tmpdir();
         if (w.runs >= flush_every)
         {
             flush_summary(false);
